@@ -1012,9 +1012,16 @@ def realise(prog, rng: random.Random, style: str = "lazy") -> Realised:
     for a in order:
         make(a)
     create_upfront(frozenset())
-    for i, r in enumerate(prog["outputs"]):
-        R.outputs[f"out{i}"] = var(r)
-    for a in margs:
+    # the dicts handed to build(): names are fixed (`in<id>`, `out<position in prog.outputs>`), the
+    # insertion order — which becomes the model's input / output order — is part of the style
+    outs = {i: var(r) for i, r in enumerate(prog["outputs"])}
+    okeys, ikeys = list(outs), list(margs)
+    if base != "eager":
+        rng.shuffle(okeys)
+        rng.shuffle(ikeys)
+    for i in okeys:
+        R.outputs[f"out{i}"] = outs[i]
+    for a in ikeys:
         R.inputs[f"in{a}"] = R.vars[(a, 0)]
     return R
 
@@ -1246,10 +1253,12 @@ def extract_emission(prog, model):
             else:
                 assign(e, ref[0], where)
 
-    if len(root.outs) != len(prog["outputs"]):
-        problem(f"model has {len(root.outs)} outputs, {len(prog['outputs'])} were requested")
-    for o, r in zip(root.outs, prog["outputs"]):
-        work.append((o, (r[0], r[1]), "model output " + o))
+    if sorted(root.outs) != sorted(f"out{i}" for i in range(len(prog["outputs"]))):
+        problem(f"model outputs {root.outs}, requested were out0..out{len(prog['outputs']) - 1}")
+    for o in root.outs:
+        if o.startswith("out") and o[3:].isdigit() and int(o[3:]) < len(prog["outputs"]):
+            r = prog["outputs"][int(o[3:])]
+            work.append((o, (r[0], r[1]), "model output " + o))
     for nm in root.inputs:
         if not (nm.startswith("in") and nm[2:].isdigit() and int(nm[2:]) in margs):
             problem(f"main graph input {nm!r} is not a requested input")
@@ -1360,9 +1369,11 @@ def labels_of(prog) -> list[int]:
     return out
 
 
-def lean_request(prog, emission, vals: list[list[int]], seed: int, margs: Optional[list[int]] = None) -> dict:
+def lean_request(prog, emission, vals: list[list[int]], seed: int, margs: Optional[list[int]] = None,
+                 mres: Optional[list] = None) -> dict:
     """The request understood by `Drv/C01.lean` (program, emission, integer test bindings).
-    `margs`: the model inputs in input order (default: the main arguments in id order)."""
+    `margs` / `mres`: the model's inputs / requested outputs in model order (default: main arguments
+    in id order / `prog["outputs"]`)."""
     labs = labels_of(prog)
     nodes = []
     for n, lab in zip(prog["nodes"], labs):
@@ -1374,7 +1385,7 @@ def lean_request(prog, emission, vals: list[list[int]], seed: int, margs: Option
         full.append(full[-1] + 1 + len(n["subs"]) * full[-1])
     return {
         "nodes": nodes,
-        "main": [main_args(prog) if margs is None else margs, prog["outputs"]],
+        "main": [main_args(prog) if margs is None else margs, prog["outputs"] if mres is None else mres],
         "emit": emission,
         "vals": vals,
         "seed": seed,
